@@ -227,7 +227,7 @@ include htag hI
     (the empty chunk when `k * chunk = |p|`), the inner stream is right after its sealed bytes. -/
 theorem EncR.load_ok (r : EncR ι) (hin : InvI r.inner) (hk : r.chunkNo * P.chunk ≤ p.length)
     (hpos : absI r.inner = r.chunkNo * (P.chunk + P.tagLen)) :
-    ∃ i b, EncR.load P C r = (⟨i, ptChunk P p r.chunkNo, 0, r.chunkNo⟩, .ok b) ∧ InvI i ∧
+    ∃ i b, EncR.load P C r = (⟨i, ptChunk P p r.chunkNo, 0, r.chunkNo, r.failed⟩, .ok b) ∧ InvI i ∧
       absI i = min ((r.chunkNo + 1) * (P.chunk + P.tagLen)) (sealS P C p).length ∧
       (b = false → ptChunk P p r.chunkNo = []) := by
   obtain ⟨i, hr, hi, ha⟩ := readUpTo_ok hI (P.chunk + P.tagLen + 1) r.inner (P.chunk + P.tagLen) hin
@@ -291,6 +291,7 @@ structure EncRd.Inv {ι : Type} (P : Params) (C : EncPrims) (p : Bytes) (InvI : 
   le : s.r.chunkNo * P.chunk ≤ p.length
   cache : s.r.cache = (p.drop (s.r.chunkNo * P.chunk)).take P.chunk
   cpos : s.r.cpos ≤ s.r.cache.length
+  nofail : s.r.failed = false
   ipos : absI s.r.inner = min ((s.r.chunkNo + 1) * (P.chunk + P.tagLen)) (sealS P C p).length
 
 section Reader2
@@ -321,8 +322,8 @@ theorem EncR.fromCache_ok (r : EncR ι) (n : Nat) (h : EncRd.Inv P C p InvI absI
       0 < (EncR.fromCache P r n).2.length) ∧
     (EncR.fromCache P r n).1.chunkNo * P.chunk + (EncR.fromCache P r n).1.cpos =
       r.chunkNo * P.chunk + r.cpos + (EncR.fromCache P r n).2.length := by
-  obtain ⟨hin, hle, hcache, hcpos, hipos⟩ := h
-  simp only at hin hle hcache hcpos hipos
+  obtain ⟨hin, hle, hcache, hcpos, hnf, hipos⟩ := h
+  simp only at hin hle hcache hcpos hnf hipos
   have hout : (EncR.fromCache P r n).2 =
       (p.drop (r.chunkNo * P.chunk + r.cpos)).take (min (P.chunk - r.cpos) n) := by
     simp only [EncR.fromCache, hcache, List.drop_take, List.drop_drop, List.take_take]
@@ -332,7 +333,7 @@ theorem EncR.fromCache_ok (r : EncR ι) (n : Nat) (h : EncRd.Inv P C p InvI absI
     rw [hout]; simp
   have hcl : r.cache.length = min P.chunk (p.length - r.chunkNo * P.chunk) := by
     rw [hcache]; simp
-  refine ⟨⟨hin, hle, hcache, ?_, hipos⟩, ?_, ?_, ?_, ?_⟩
+  refine ⟨⟨hin, hle, hcache, ?_, hnf, hipos⟩, ?_, ?_, ?_, ?_⟩
   · show r.cpos + (EncR.fromCache P r n).2.length ≤ r.cache.length
     rw [hlen]; omega
   · rw [hout]; exact take_eq_take_length _ _
@@ -351,27 +352,28 @@ theorem EncR.readFull_eq (r : EncR ι) (n : Nat) (h : EncRd.Inv P C p InvI absI 
       EncR.readFull P C r n = ((EncR.fromCache P r1 n).1, .ok (EncR.fromCache P r1 n).2) := by
   have hc := P.hchunk
   by_cases hz : P.chunk - r.cpos = 0
-  · obtain ⟨hin, hle, hcache, hcpos, hipos⟩ := h
-    simp only at hin hle hcache hcpos hipos
+  · obtain ⟨hin, hle, hcache, hcpos, hnf, hipos⟩ := h
+    simp only at hin hle hcache hcpos hnf hipos
     have hcl : r.cache.length = min P.chunk (p.length - r.chunkNo * P.chunk) := by
       rw [hcache]; simp
     have hcp : r.cpos = P.chunk := by omega
     have hk1 : (r.chunkNo + 1) * P.chunk ≤ p.length := by rw [Nat.add_mul]; omega
     have hoff := chunk_off_le P C htag p (r.chunkNo + 1) hk1
     obtain ⟨i, b, hl, hi, ha, hb⟩ := EncR.load_ok P C htag p hI
-      { r with chunkNo := r.chunkNo + 1 } hin hk1 (by rw [hipos]; exact Nat.min_eq_left hoff)
-    simp only at hl ha hb
-    refine ⟨⟨i, ptChunk P p (r.chunkNo + 1), 0, r.chunkNo + 1⟩, ⟨hi, hk1, rfl, Nat.zero_le _, ha⟩,
-      ?_, hc, ?_⟩
+      { r with chunkNo := r.chunkNo + 1 } hin hk1
+      (by show absI r.inner = _; rw [hipos]; exact Nat.min_eq_left hoff)
+    simp only [hnf] at hl ha hb
+    refine ⟨⟨i, ptChunk P p (r.chunkNo + 1), 0, r.chunkNo + 1, false⟩,
+      ⟨hi, hk1, rfl, Nat.zero_le _, rfl, ha⟩, ?_, hc, ?_⟩
     · simp only [Nat.add_mul]; omega
     · unfold EncR.readFull
-      rw [if_pos hz, hl]
+      rw [hnf, if_neg (by simp), if_pos hz, hl]
       cases b with
       | true => rfl
       | false => simp [EncR.fromCache, hb rfl]
   · refine ⟨r, h, rfl, by omega, ?_⟩
     unfold EncR.readFull
-    rw [if_neg hz]
+    rw [h.nofail, if_neg (by simp), if_neg hz]
 
 /-- `seekStart` to any position of the plaintext, from any state whose inner stream is fine -/
 theorem EncR.seekStart_ok (r : EncR ι) (pos : Nat) (hin : InvI r.inner) (hpos : pos ≤ p.length)
@@ -397,7 +399,7 @@ theorem EncR.seekStart_ok (r : EncR ι) (pos : Nat) (hin : InvI r.inner) (hpos :
   obtain ⟨i', b, hl, hi', ha', _⟩ := EncR.load_ok P C htag p hI
     { r with inner := i, chunkNo := q } hi hqc ha
   simp only at hl ha'
-  refine ⟨⟨i', ptChunk P p q, rm, q⟩, ?_, ⟨hi', hqc, rfl, ?_, ha'⟩, by omega⟩
+  refine ⟨⟨i', ptChunk P p q, rm, q, false⟩, ?_, ⟨hi', hqc, rfl, ?_, rfl, ha'⟩, by omega⟩
   · unfold EncR.seekStart
     simp only [hq, hm, e1, e2, hs, hl, if_neg (Nat.not_le.mpr hu)]
   · show rm ≤ (ptChunk P p q).length
